@@ -327,6 +327,9 @@ class NestedExtensionArray(ExtensionArray):
             # Our replace_with_mask implementation doesn't work with scalars
             value = pa.array([scalar] * pa.compute.sum(pa_mask).as_py())
 
+        # Refuse ragged values: in each row all fields must have the same number of elements
+        self._validate(value if isinstance(value, pa.ChunkedArray) else pa.chunked_array([value]))
+
         if argsort is not None:
             value = value.take(argsort)
 
